@@ -242,8 +242,51 @@ class Norm:
                 if x[0] == "seqview":
                     return x
                 return ("seqview", x)
+            r = self._pure_helper(key, args)
+            if r is not None:
+                return r
             return ("call", key, args) + tuple(t[3:])
         return t
+
+    _pure_cache = {}
+
+    def _pure_helper(self, key, args):
+        """A call to a crate-private function that is a pure expression of its arguments (one path, no guards, no calls, no
+        stores - e.g. `fn bit_len() -> usize { K * A::BITS as usize }`) is replaced by that expression, whatever inlining policy
+        the analysis ran under."""
+        eng = Norm.eng
+        if eng is None:
+            return None
+        ck = (id(eng), key)
+        if ck not in Norm._pure_cache:
+            Norm._pure_cache[ck] = None
+            bs = eng.by_path.get(key) or eng.by_path.get(re.sub(r"::<[^<>]*(<[^<>]*>[^<>]*)*>(?=::\w+$)", lambda m: m.group(0), key))
+            if bs and len(bs) == 1:
+                b0 = bs[0]
+                imp = b0.get("impl") or {}
+                if b0["kind"] in ("Fn", "AssocFn") and not b0["vis"].startswith("Public") and not imp.get("trait") and not imp.get("trait_default"):
+                    import terms
+                    try:
+                        outs = terms.Analysis(eng, terms.Policy()).run(b0, [("param", i + 1) for i in range(b0.get("arg_count", 0))])
+                    except Exception:
+                        outs = []
+                    live = [o for o in outs if o.end != "panic"]
+                    if len(live) == 1 and live[0].end == "return" and not live[0].guards and not live[0].stores and \
+                            not [c for c in live[0].calls if not getattr(c, "inlined", False) == "model"] and len(outs) == 1:
+                        Norm._pure_cache[ck] = (b0.get("arg_count", 0), Norm(env=None).norm(live[0].ret))
+        hit = Norm._pure_cache[ck]
+        if hit is None or hit[0] != len(args):
+            return None
+        n, body = hit
+        m = {("P", i + 1): args[i] for i in range(n)}
+
+        def sub(t):
+            if isinstance(t, tuple):
+                if t in m:
+                    return m[t]
+                return tuple(sub(x) if isinstance(x, tuple) else x for x in t)
+            return t
+        return sub(body)
 
 
     _ac_cache = {}
